@@ -9,10 +9,33 @@ import (
 // mergeSameResponseKeys implements GraphQL field merging for sibling fields: a response key
 // selected several times at one level (a { x } a { y }) stands for one field whose
 // sub-selections are put together (a { x y }).
+// flattenObjectFragments replaces the fragments that apply to an object type (they are unfolded
+// into their parent anyway) by their selections, so that the same response key selected in the
+// parent and in a fragment, or in two fragments, is seen as selected twice.
+func flattenObjectFragments(selectionSet ast.SelectionSet) ast.SelectionSet {
+	var result ast.SelectionSet
+	for _, sel := range selectionSet {
+		switch s := sel.(type) {
+		case *ast.InlineFragment:
+			if s.ObjectDefinition != nil && s.ObjectDefinition.Kind == ast.Object {
+				result = append(result, flattenObjectFragments(s.SelectionSet)...)
+				continue
+			}
+		case *ast.FragmentSpread:
+			if s.ObjectDefinition != nil && s.ObjectDefinition.Kind == ast.Object && s.Definition != nil {
+				result = append(result, flattenObjectFragments(s.Definition.SelectionSet)...)
+				continue
+			}
+		}
+		result = append(result, sel)
+	}
+	return result
+}
+
 func mergeSameResponseKeys(selectionSet ast.SelectionSet) ast.SelectionSet {
 	var result ast.SelectionSet
 	first := make(map[string]*ast.Field)
-	for _, sel := range selectionSet {
+	for _, sel := range flattenObjectFragments(selectionSet) {
 		f, ok := sel.(*ast.Field)
 		if !ok {
 			result = append(result, sel)
